@@ -5,6 +5,7 @@ import (
 
 	"github.com/bronlabs/errs-go/errs"
 
+	"github.com/bronlabs/bron-crypto/pkg/base/curves"
 	"github.com/bronlabs/bron-crypto/pkg/base/serde"
 )
 
@@ -35,6 +36,9 @@ func (fe *BaseFieldElement) UnmarshalCBOR(data []byte) error {
 	if err != nil {
 		return errs.Wrap(err).WithMessage("failed to unmarshal base field element")
 	}
+	if dto == nil {
+		return curves.ErrSerialisation.WithMessage("BaseFieldElement DTO is nil")
+	}
 
 	bfe, err := NewBaseField().FromBytes(dto.BaseFieldBytes)
 	if err != nil {
@@ -59,6 +63,9 @@ func (fe *Scalar) UnmarshalCBOR(data []byte) error {
 	dto, err := serde.UnmarshalCBOR[*scalarDTO](data)
 	if err != nil {
 		return errs.Wrap(err).WithMessage("failed to unmarshal scalar")
+	}
+	if dto == nil {
+		return curves.ErrSerialisation.WithMessage("Scalar DTO is nil")
 	}
 
 	s, err := NewScalarField().FromBytes(dto.ScalarBytes)
@@ -85,6 +92,9 @@ func (p *Point) UnmarshalCBOR(data []byte) error {
 	if err != nil {
 		return errs.Wrap(err).WithMessage("failed to unmarshal point")
 	}
+	if dto == nil {
+		return curves.ErrSerialisation.WithMessage("Point DTO is nil")
+	}
 
 	pp, err := NewCurve().FromCompressed(dto.AffineCompressedBytes)
 	if err != nil {
@@ -105,6 +115,9 @@ func (p *PrimeSubGroupPoint) UnmarshalCBOR(data []byte) error {
 	dto, err := serde.UnmarshalCBOR[*pointDTO](data)
 	if err != nil {
 		return errs.Wrap(err).WithMessage("failed to unmarshal point")
+	}
+	if dto == nil {
+		return curves.ErrSerialisation.WithMessage("PrimeSubGroupPoint DTO is nil")
 	}
 
 	pp, err := NewPrimeSubGroup().FromCompressed(dto.AffineCompressedBytes)
